@@ -146,6 +146,15 @@ func (x *ctxInfo) verdict(out clientx.Outcome, f string, p int, first string) {
 		x.r.Violate(c, "do-panics", a, ctx+": "+out.Panic)
 		return
 	}
+	if c.FC == 17 && x.client != clientx.TCP && p >= 7 && p < L && f != "flood" {
+		// An RTU read-server-id reply carries no length of its own (server id length, then "the rest"): a prefix whose
+		// last two bytes happen to be the CRC of what precedes them (one in 65536) is a complete, well-formed frame to
+		// any receiver, and a line that goes quiet or fails after it has delivered a reply. No verdict either way.
+		if crc := specref.CRC(x.reply[:p-2]); x.reply[p-2] == byte(crc) && x.reply[p-1] == byte(crc>>8) && int(x.reply[2])+4 <= p-2 {
+			x.r.Cover("fault", "no verdict: the delivered prefix of an RTU FC17 reply is itself a CRC-consistent frame")
+			return
+		}
+	}
 	gap := p >= E && p < L // the prefix already satisfies a too-short expected length (C07's known formulas)
 	if gap {
 		a["in_gap"] = true
